@@ -226,4 +226,17 @@ def tarjan_lowlink(rep: Report, prog: Program, vf, visit_name: str, g0: str, vis
                 and {norm(guard.test.left).split('[')[0], norm(guard.test.comparators[0]).split('[')[0]} >= {visited_set} \
                 and any(isinstance(x, ast.Call) and callee_last(x) == 'pop' for x in ast.walk(wl)) and v in names_in(wl.test):
             ok = True
+    # the pop loop may live in a sibling local helper called under the root test with v as its argument
+    siblings = {c.name: c for c in (vf.parent.children if vf.parent is not None else []) if not c.is_lambda and c is not vf}
+    for guard in [n for n in own_nodes(vf.node) if isinstance(n, ast.If)]:
+        if not (isinstance(guard.test, ast.Compare) and isinstance(guard.test.ops[0], ast.Eq)
+                and {norm(guard.test.left).split('[')[0], norm(guard.test.comparators[0]).split('[')[0]} >= {visited_set}):
+            continue
+        for c in [x for s2 in guard.body for x in ast.walk(s2) if isinstance(x, ast.Call) and isinstance(x.func, ast.Name) and x.func.id in siblings]:
+            h = siblings[c.func.id]
+            hp = h.positional_params()
+            bound = [p_ for p_, a in zip(hp, c.args) if norm(a) == v]
+            for wl in [n for n in own_nodes(h.node) if isinstance(n, ast.While)]:
+                if bound and any(isinstance(x, ast.Call) and callee_last(x) == 'pop' for x in ast.walk(wl)) and (set(bound) & names_in(wl.test)):
+                    ok = True
     rep.ob('C19-D2 scc-protocol', vf.fq(), f"a component is popped (until {v}) exactly when {v} is a root (low-link == index)", vf.loc(), ok, '' if ok else 'root test / pop loop not recognised or altered')
